@@ -906,6 +906,28 @@ func RunC05(t *kernel.Tape, o Opts) *Result {
 	if s.Aborted || t.Over {
 		res.Status = "budget"
 		res.Violations = nil
+		// The budget of a run is a cap on the client calls of one operation
+		// (and on the yields of the run). An undisturbed operation that
+		// reaches the cap although the serial reference for the same root
+		// needed less than a hundredth of it is not on its way to the same
+		// graph: it does not terminate (counted in calls, not in real time).
+		for i := 0; i < ntasks && !t.Over; i++ {
+			j := int(s.Note(i, noteOp))
+			// Only when no other task was alive any more: under the unfair
+			// schedules drawn here (priorities, sticky) an operation that
+			// waits for another one by polling may starve the one it waits
+			// for, which a real scheduler would not do.
+			if s.Note(i, noteCap) != 1 || s.Note(i, noteFired) != 0 || j < 1 || j > len(programs[i]) {
+				continue
+			}
+			op := programs[i][j-1]
+			if n := refCalls[op.Root][0]; n*livelockFactor <= sc.maxCall {
+				vk := spec.VK(op.Root.P, op.Root.V)
+				res.Status = "ok"
+				res.Config = sname + "/livelock"
+				violate(res, "livelock", "livelock:"+sname, 0, "task %d: Resolve(%s %s) made more than %d client calls without returning; the serial resolution of the same root on a fresh client needs %d", i, vk.Name, vk.Version, sc.maxCall, n)
+			}
+		}
 		return res
 	}
 	// Once the faults have stopped: clean resolutions, one after the other, on
@@ -916,6 +938,7 @@ func RunC05(t *kernel.Tape, o Opts) *Result {
 		phase = 2
 		okE := es.Run([]func(*kernel.Task){func(*kernel.Task) {
 			for k, op := range epilogue {
+				es.SetNote(0, noteOp, int64(k+1))
 				runOp(perTask[epilogueTask[k]], 0, op)
 			}
 		}})
@@ -926,6 +949,15 @@ func RunC05(t *kernel.Tape, o Opts) *Result {
 		if es.Aborted {
 			res.Status = "budget"
 			res.Violations = nil
+			if k := int(es.Note(0, noteOp)); es.Note(0, noteCap) == 1 && k >= 1 && k <= len(epilogue) && !t.Over {
+				op := epilogue[k-1]
+				if n := refCalls[op.Root][0]; n*livelockFactor <= sc.maxCall {
+					vk := spec.VK(op.Root.P, op.Root.V)
+					res.Status = "ok"
+					res.Config = sname + "/livelock"
+					violate(res, "livelock", "livelock:"+sname, 0, "after the faults stopped, Resolve(%s %s) on the resolver of task %d made more than %d client calls without returning; the serial resolution of the same root on a fresh client needs %d", vk.Name, vk.Version, epilogueTask[k-1], sc.maxCall, n)
+				}
+			}
 			return res
 		}
 		res.Yields += es.Yields
